@@ -329,6 +329,8 @@ Inductive cop :=
 | CRemove (n : nat)     (* retention *)
 | CSave                 (* SyncWithDisk: temp file + rename *)
 | CCrashTorn            (* power loss: the unsynced file content is cut: it no longer parses *)
+| CDamage (f : cmap)    (* the file is replaced by other parsable content (older version, partially
+                           filled or emptied entries ...) *)
 | CRestart.             (* new process: memory cache empty, file kept; loader reads it *)
 
 Record cst := mkcst { c_mem : cmap; c_file : option cmap }.   (* None: missing or unparsable *)
@@ -340,6 +342,12 @@ Definition c_step (hdr : nat -> info) (s : cst) (o : cop) : cst :=
   | CRemove n => mkcst (cdel (c_mem s) n) (c_file s)
   | CSave => mkcst (c_mem s) (Some (c_mem s))
   | CCrashTorn => mkcst [] None
+  | CDamage f => mkcst (c_mem s) (Some f)
   | CRestart => mkcst [] (c_file s)
   end.
+(* a damaged entry the loader can recognise: no positive index size *)
+Definition entry_benign (hdr : nat -> info) (n : nat) (i : info) : Prop := i = hdr n \/ i_idxod i = 0%N.
+Definition cop_benign (hdr : nat -> info) (o : cop) : Prop :=
+  match o with CDamage f => forall n i, cget f n = Some i -> entry_benign hdr n i | _ => True end.
+
 Definition c_run (hdr : nat -> info) (ops : list cop) : cst := fold_left (c_step hdr) ops c_init.
